@@ -148,6 +148,8 @@ def rerun_episode(run, case, tag):
                         c["filter"], c["am"], c["mask"], c["nogap"], out=None if c["out"] == c["file"] else c["out"])
             elif ev == "nk":
                 sb.nk_event(c["file"])
+            elif ev == "load":
+                sb.load_event(c["file"])
             elif ev == "align":
                 n = len(e.get("names") or []) or 1
                 sb.align(c["file"], n, c["minf"], c["filter"], c["am"], c["mask"], c["nogap"])
